@@ -51,6 +51,7 @@ type JobConfig struct {
 	Vector     []uint64 `json:"vector,omitempty"`
 	WitnessFor []string `json:"witness_for,omitempty"`
 	WallMs     int      `json:"wall_ms,omitempty"`
+	MapOrders  bool     `json:"map_orders,omitempty"` // fork over map iteration orders (C14 / C20 determinism)
 }
 
 type JobResult struct {
@@ -1593,7 +1594,7 @@ func (ex *Exec) rangeStart(st *State, v Value) Value {
 		o := st.obj(x.obj)
 		n := len(o.entries)
 		var orders [][]int
-		if n <= 1 {
+		if n <= 1 || !ex.cfg.MapOrders {
 			orders = [][]int{make([]int, n)}
 			for i := range orders[0] {
 				orders[0][i] = i
